@@ -711,3 +711,77 @@ def ivc_arith_concrete(p, m):
     if ok:
         ok, d = _concrete_contains(r[1], ims, sh, prec)
     return ok, d
+
+
+def iv_cmp_num(p):
+    """interval <op> plain Python int (operators of iv.mpf with a number on the right or left): the number denotes itself
+    exactly, however long its mantissa is.  Soundness: True only if the relation holds for every point of the interval,
+    False only if it fails for every point (None is always acceptable for a number that is not representable)."""
+    fn, ss, nbc, nneg, prec = p['fn'], p['s'], p['nbc'], p.get('nneg', 0), p['prec']
+    lo = min(spec_lo(*ss), 0)
+    top = max(spec_top(*ss), nbc - lo) + 3
+    ob = Ob(wbump(p, top + 70), timeout_s=p.get('_t', 60))
+    sa, sb = mk_end(ob, 'sa', ss[0], 0, lo), mk_end(ob, 'sb', ss[1], 0, lo)
+    ob.assume.append(le_end(sa, sb))
+    na = ob.int('n_abs', 1 << (nbc - 1), (1 << nbc) - 1) if nbc > 1 else 1
+    n = V.neg(na) if nneg else na
+    nv = zt(n) << (-lo)
+    import mpmath
+    iv = mpmath.iv
+    iv.prec = prec
+    so = iv.make_mpf((sa.tup, sb.tup))
+    meth = {'<': '__lt__', '<=': '__le__', '>': '__gt__', '>=': '__ge__', '==': '__eq__', '!=': '__ne__'}[fn]
+    outs = ob.run(getattr(iv.mpf, meth), [so, n])
+    N = End('num', None, nv)
+
+    def lt(a, b):
+        return z3.Not(le_end(b, a))
+    if fn == '<':
+        all_, none_ = lt(sb, N), le_end(N, sa)
+    elif fn == '<=':
+        all_, none_ = le_end(sb, N), lt(N, sa)
+    elif fn == '>':
+        all_, none_ = lt(N, sa), le_end(sb, N)
+    elif fn == '>=':
+        all_, none_ = le_end(N, sa), lt(sb, N)
+    else:
+        same = z3.And(le_end(sa, N), le_end(N, sa), le_end(sb, N), le_end(N, sb))
+        all_, none_ = (same, z3.Not(same)) if fn == '==' else (z3.Not(same), same)
+
+    def good(val, st):
+        if val is None or val is NotImplemented:
+            return True
+        if val is True or val is False:
+            return all_ if val else none_
+        if isinstance(val, SBool):
+            return z3.And(z3.Implies(val.t, all_), z3.Implies(z3.Not(val.t), none_))
+        return False
+    return finish(ob, ob.prove(outs, good))
+
+
+def iv_cmp_num_concrete(p, m):
+    import mpmath
+    iv = mpmath.iv
+    iv.prec = p['prec']
+    ss = p['s']
+    s = (conc_end(m, 'sa', ss[0], 0), conc_end(m, 'sb', ss[1], 0))
+    na = m.get('n_abs', 1)
+    n = -na if p.get('nneg') else na
+    so = iv.make_mpf(s)
+    fn = p['fn']
+    r = {'<': lambda: so < n, '<=': lambda: so <= n, '>': lambda: so > n, '>=': lambda: so >= n, '==': lambda: so == n, '!=': lambda: so != n}[fn]()
+    S = [_frac_end(x, 0) for x in s]
+    if fn == '<':
+        all_, none_ = S[1] < n, S[0] >= n
+    elif fn == '<=':
+        all_, none_ = S[1] <= n, S[0] > n
+    elif fn == '>':
+        all_, none_ = S[0] > n, S[1] <= n
+    elif fn == '>=':
+        all_, none_ = S[0] >= n, S[1] < n
+    elif fn == '==':
+        all_, none_ = S[0] == S[1] == n, not (S[0] == S[1] == n)
+    else:
+        all_, none_ = not (S[0] == S[1] == n), S[0] == S[1] == n
+    ok = r is None or (r is True and all_) or (r is False and none_)
+    return ok, 'iv %r %s %d -> %r at iv.prec=%d, but the relation %s' % (S, fn, n, r, p['prec'], 'does not hold for every point' if r else 'does not fail for every point')
